@@ -59,6 +59,9 @@ GEN_TYPES = ["fuel", "clad", "duct", "control", "inner fuel", "driver fuel", "sh
 CORE_CELLS = [(0, 0), (1, 0), (0, 1), (-1, 1), (-1, 0), (0, -1), (1, -1), (2, 0), (1, 1), (0, 2), (-1, 2), (-2, 2),
               (-2, 1), (-2, 0), (-1, -1), (0, -2), (1, -2), (2, -2), (2, -1)]
 BIG = 10**6
+# before armi detached the cells of a removed pin's location (fix 64b8dd4) a re-added pin shared its cells with the lattice it
+# had left and such locations could not be judged; kept as a switch for running against older trees
+SHARED_CELL_EXEMPTION = bool(os.environ.get("VP_C01_SHARED_CELLS"))
 _IDS = re.compile(r"(id:| -- )\d+")
 
 
@@ -968,6 +971,8 @@ class Interp:
         and the tree is pickled, whichever grid is restored last owns those cells.  Such locations are not judged."""
         multi = self.A.grids.MultiIndexLocation
         owner, shared = {}, set()
+        if not SHARED_CELL_EXEMPTION:
+            return shared
         for n in nodes:
             loc = n.obj.spatialLocator
             if isinstance(loc, multi):
@@ -991,6 +996,12 @@ class Interp:
 
     def check_all(self):
         shared = self.shared_cells(self.nodes)
+        registered = {}
+        for n in self.nodes:
+            g = n.obj.spatialGrid
+            if g is not None and n.cls == "B":
+                for _ijk, cell in g.items():
+                    registered[id(cell)] = g
         for n in self.nodes:
             o = n.obj
             got = list(o)
@@ -1011,6 +1022,14 @@ class Interp:
             loc = o.spatialLocator
             if n.detached and (loc is None or loc.grid is not None):
                 self.fail("tree/detached-locator-attached", "%r was removed; its locator %r still has grid %r" % (o, loc, getattr(loc, "grid", None)))
+            elif n.detached and isinstance(loc, self.A.grids.MultiIndexLocation):
+                # "a detached location": every cell of a multi-cell location is detached too, and is a cell of its own
+                # (not one of the cell objects that a pin lattice keeps in its registry)
+                bad = [cell for cell in loc if cell.grid is not None or id(cell) in registered]
+                if bad:
+                    g0 = bad[0].grid if bad[0].grid is not None else registered[id(bad[0])]
+                    self.fail("tree/detached-location-cells-attached", "%r was removed; %d of the %d cells of its location still belong to a grid (the %s of %r)"
+                              % (o, len(bad), len(loc), type(g0).__name__, g0.armiObject))
             g = o.spatialGrid
             if g is not None and g.armiObject is not o:
                 self.fail("tree/grid-owner", "%r.spatialGrid.armiObject is %r" % (o, g.armiObject))
